@@ -35,12 +35,12 @@ def systematic_profile(name: str, kind_filter, raisers: bool, nq: int, nt: int, 
 
 
 def random_profile(name: str, core_only: bool, raisers: bool, nq: int, nt: int, oracles, actions_mode='none',
-                   configs=None, inputs=None, use_sem=False, n_rules=(4, 7), alphabet=(97, 98, 99), eol_atoms=False, **kw) -> Profile:
+                   configs=None, inputs=None, use_sem=False, n_rules=(4, 7), alphabet=(97, 98, 99), eol_atoms=False, switches=False, **kw) -> Profile:
     def grams(rng: random.Random, tier: str):
         n = nq if tier == 'quick' else nt
         out = []
         for i in range(n):
-            rg = corpus.RandGen(rng, core_only, raisers, rng.randint(*n_rules), alphabet=alphabet, eol_atoms=eol_atoms)
+            rg = corpus.RandGen(rng, core_only, raisers, rng.randint(*n_rules), alphabet=alphabet, eol_atoms=eol_atoms, switches=switches)
             g, roots = rg.grammar(f"{name}{i}")
             corpus.attach_actions(rng, g, actions_mode)
             out.append((g, roots, {'kind': 'random'}))
